@@ -70,6 +70,7 @@ func TestMain(m *testing.M) {
 		os.RemoveAll(root)
 		os.Exit(2)
 	}
+	removeOldLitter()
 	code := m.Run()
 	removeStrayDirs()
 	os.Chdir("/")
